@@ -1,12 +1,18 @@
-/* Native side of vf_harness.h: looks inputs up by name in $VF_REPLAY_FILE. */
+/* Native side of vf_harness.h: looks inputs up by name in $VF_REPLAY_FILE ("name value" lines in trace order).
+ * A VF_IN site that executes several times consumes successive lines with its name. */
 #include <stdio.h>
 #include <stdlib.h>
 #include <string.h>
+#define MAXN 256
+static const char *names[MAXN];
+static char *cursor[MAXN];
+static int nnames;
 long long vf_replay_get (const char *name, int idx) {
 	static char *buf = NULL;
 	char key[256];
 	char *p;
 	size_t kl;
+	int i, slot = -1;
 	if (buf == NULL) {
 		const char *fn = getenv ("VF_REPLAY_FILE");
 		FILE *f = fn ? fopen (fn, "r") : NULL;
@@ -22,8 +28,11 @@ long long vf_replay_get (const char *name, int idx) {
 	if (idx >= 0) { snprintf (key, sizeof (key), "\n%s[%d] ", name, idx); }
 	else { snprintf (key, sizeof (key), "\n%s ", name); }
 	kl = strlen (key);
-	p = strstr (buf, key);
+	for (i = 0; i < nnames; i++) { if (strcmp (names[i], key) == 0) { slot = i; } }
+	if (slot < 0 && nnames < MAXN) { slot = nnames++; names[slot] = strdup (key); cursor[slot] = buf; }
+	p = strstr (slot >= 0 ? cursor[slot] : buf, key);
 	if (p == NULL) { return 0; }   /* input not constrained by the counterexample */
+	if (slot >= 0) { cursor[slot] = p + kl; }
 	if (p[kl] == '-') { return strtoll (p + kl, NULL, 0); }
 	return (long long) strtoull (p + kl, NULL, 0);
 }
